@@ -26,7 +26,7 @@ def atlas_graph(i):
 
 
 def planted(rng):
-    k = rng.choice(["chain", "share", "wheel", "complete", "two-triangles-edge", "book", "k4-ring"])
+    k = rng.choice(["chain", "share", "wheel", "complete", "two-triangles-edge", "book", "k4-ring", "chain", "share", "big-share-edge"])
     g = nx.Graph()
     if k == "chain":
         s = rng.choice([3, 4, 5])
@@ -42,6 +42,13 @@ def planted(rng):
         s = rng.choice([3, 4, 5, 6])
         a = list(range(s))
         b = list(range(1, s + 1))
+        for vs in (a, b):
+            g.add_edges_from((x, y) for i, x in enumerate(vs) for y in vs[i + 1:])
+    elif k == "big-share-edge":
+        # two cliques of 5..6 vertices sharing exactly one edge
+        s1, s2 = rng.choice([5, 6]), rng.choice([5, 6])
+        a = list(range(s1))
+        b = [0, 1] + list(range(s1, s1 + s2 - 2))
         for vs in (a, b):
             g.add_edges_from((x, y) for i, x in enumerate(vs) for y in vs[i + 1:])
     elif k == "wheel":
@@ -62,6 +69,16 @@ def planted(rng):
         for i in range(r):
             vs = [2 * i, 2 * i + 1, (2 * i + 2) % (2 * r), (2 * i + 3) % (2 * r)]
             g.add_edges_from((x, y) for j, x in enumerate(vs) for y in vs[j + 1:] if x != y)
+    if rng.random() < 0.5 and g.number_of_edges():
+        # pendant triangles (sometimes K4s) sitting on edges of the structure: small intact maximal cliques next to big overlapping ones
+        nxt = max(g.nodes()) + 1
+        for _ in range(rng.randint(1, 4)):
+            a, b = rng.choice(list(g.edges()))
+            new = [nxt] if rng.random() < 0.8 else [nxt, nxt + 1]
+            nxt += len(new)
+            vs = [a, b] + new
+            g.add_edges_from((x, y) for j, x in enumerate(vs) for y in vs[j + 1:])
+        k += "+pendants"
     return k, g
 
 
